@@ -312,7 +312,7 @@ func (r *Run) Execute() int {
 		r.Prop, r.Tier, len(units), len(results), discharged, violations, len(undecided), coverSat, len(covers), vacuous, float64(solverMs)/1000, time.Since(r.Start).Seconds())
 	if r.Verbose {
 		for _, res := range results {
-			fmt.Printf("  %-70s %-12s %5dms %s\n", res.Name, res.Status, res.Millis, res.Solver)
+			fmt.Printf("  %-70s %-12s %5dms (slowest query %dms) %s\n", res.Name, res.Status, res.Millis, res.MaxMs, res.Solver)
 		}
 		for _, o := range obs {
 			for i, q := range o.Queries {
